@@ -80,7 +80,21 @@ fn read_w(t: &mut Toks) -> W {
         "mapset" => {
             let n: usize = t.num();
             let els: Vec<OwnedTerm> = (0..n).map(|_| read_term(t)).collect();
-            W::MapSet(ElixirMapSet::from_values(els))
+            // every public way of building the set from these members must give the same set
+            let a = ElixirMapSet::from_values(els.clone());
+            let b: ElixirMapSet = els.clone().into_iter().collect();
+            let mut c = ElixirMapSet::new();
+            for e in els.clone() {
+                c.insert(e);
+            }
+            let half = els.len() / 2;
+            let d = ElixirMapSet::from_values(els[..half].to_vec()).union(&ElixirMapSet::from_values(els[half..].to_vec()));
+            if a != b || a != c || a != d {
+                NOTES.with(|n| {
+                    n.borrow_mut().push(format!("mapset-constructors from_values={} collect={} insert={} union={}", a.len(), b.len(), c.len(), d.len()))
+                });
+            }
+            W::MapSet(a)
         }
         "msgerr" => {
             let kind: u32 = t.num();
@@ -269,7 +283,18 @@ fn entries(t: &mut Toks) -> Vec<(String, OwnedTerm)> {
     (0..n).map(|_| (s_in(t), read_term(t))).collect()
 }
 
+thread_local! {
+    static NOTES: std::cell::RefCell<Vec<String>> = const { std::cell::RefCell::new(Vec::new()) };
+}
+
 pub fn run_case(line: &str) -> String {
+    NOTES.with(|n| n.borrow_mut().clear());
+    let out = run_case_inner(line);
+    let notes = NOTES.with(|n| n.borrow().join("; "));
+    if notes.is_empty() { out } else { format!("{out} ;; NOTE {notes}") }
+}
+
+fn run_case_inner(line: &str) -> String {
     let mut t = Toks::new(line);
     match t.next() {
         "range" => {
